@@ -201,26 +201,28 @@ def _impl_worker(chunk):
         out.append((o, msg))
     return out
 
-def run_impl(funcs, cases, procs=NPROC, oracle=None):
+def run_impl(funcs, cases, procs=NPROC, oracle=None, pairs=False):
     """funcs: {fn: callable(arg)->canonical result}.  fork-based pool so pybtex is the
-    working tree imported by this process.  Returns a list of (output, oracle message)."""
+    working tree imported by this process.  Returns the list of outputs; with pairs=True a list of
+    (output, oracle message) -- the oracle then runs in the workers, right after the implementation."""
     global _IMPL_FUNCS, _ORACLE
     _IMPL_FUNCS = funcs
-    _ORACLE = oracle
+    _ORACLE = oracle if pairs else None
     if not cases:
         return []
     if len(cases) < 400 or procs <= 1:
-        return _impl_worker(cases)
-    n = min(procs, (len(cases) + 199) // 200)
-    chunks = [cases[i::n] for i in range(n)]
-    ctx = mp.get_context('fork')
-    with ctx.Pool(n) as pool:
-        outs = pool.map(_impl_worker, chunks)
-    res = [None] * len(cases)
-    for k, o in enumerate(outs):
-        for i, r in zip(range(k, len(cases), n), o):
-            res[i] = r
-    return res
+        res = _impl_worker(cases)
+    else:
+        n = min(procs, (len(cases) + 199) // 200)
+        chunks = [cases[i::n] for i in range(n)]
+        ctx = mp.get_context('fork')
+        with ctx.Pool(n) as pool:
+            outs = pool.map(_impl_worker, chunks)
+        res = [None] * len(cases)
+        for k, o in enumerate(outs):
+            for i, r in zip(range(k, len(cases), n), o):
+                res[i] = r
+    return res if pairs else [r[0] for r in res]
 
 # ----------------------------------------------------------------------------------------
 def ensure_built(log):
@@ -534,7 +536,7 @@ def run_check(mod, tier, seed):
             ck.log('coqchk: %s' % ch)
             if not ch['clean']:
                 broken_obligations.append('coqchk -o on Props/%s did not come back clean: %s' % (pid, json.dumps(ch)[-600:]))
-        ipairs = run_impl(implf, plain, oracle=oracle)
+        ipairs = run_impl(implf, plain, oracle=oracle, pairs=True)
         iouts = [p[0] for p in ipairs]
         omsgs = [p[1] for p in ipairs]
         del ipairs
